@@ -11,6 +11,7 @@ import (
 	"golang.org/x/tools/go/ssa"
 
 	"verif/checker/esp"
+	"verif/checker/flow"
 	"verif/checker/load"
 	"verif/checker/report"
 )
@@ -482,4 +483,27 @@ func (c *Ctx) validatorMakers() []*ssa.Function {
 		}
 	}
 	return makers
+}
+
+// noGlobalWrites: no write in the repo call closure of root goes to a package-level variable (the computation keeps
+// no state outside the call, so its result is a function of its inputs whatever else runs or ran).
+func (c *Ctx) noGlobalWrites(rule string, root *ssa.Function) {
+	if root == nil {
+		return
+	}
+	clo := c.reachable([]*ssa.Function{root}, nil)
+	eff := &flow.Effects{P: c.P, Funcs: clo, Roots: map[*ssa.Function]bool{root: true}}
+	ws := eff.Writes()
+	bad := 0
+	for _, w := range ws {
+		for _, rt := range w.Shared() {
+			if rt.Kind == flow.GlobalRoot {
+				bad++
+				c.S.Bad(rule, load.FuncName(root)+"→"+load.FuncName(w.Fn)+":writes package-level state", c.pos(w.Instr.Pos()), fmt.Sprintf("the computation writes %s of package-level variable %s: its result is no longer a function of its inputs (concurrent or earlier computations interfere)", w.What, rt.V.Name()))
+			}
+		}
+	}
+	if bad == 0 {
+		c.S.OK(rule, load.FuncName(root)+":no package-level state", c.pos(root.Pos()), fmt.Sprintf("%d writes in the closure, none to a package-level variable", len(ws)), true)
+	}
 }
